@@ -47,7 +47,9 @@ def decNats (s : String) : Option (List Nat) :=
 def field (s : String) : Option String := unhexF (if s == "-" then "" else s)
 
 def decHOp (s : String) : Option HOp :=
-  if s.startsWith "R!" then (decPattern (s.drop 2).toString).map fun p => .reg p true
+  if s.startsWith "Rf!" then (decPattern (s.drop 3).toString).map fun p => .reg p true
+  else if s.startsWith "Rf" then (decPattern (s.drop 2).toString).map fun p => .reg p false
+  else if s.startsWith "R!" then (decPattern (s.drop 2).toString).map fun p => .reg p true
   else if s.startsWith "R" then (decPattern (s.drop 1).toString).map fun p => .reg p false
   else if s.startsWith "L" then (decPattern (s.drop 1).toString).map fun p => .look p.kind p.typ p.name
   else if s.startsWith "D" then (decName (s.drop 1).toString).map .disp
